@@ -85,6 +85,12 @@ CLAIMED = {
         text="Per-axis alphabet of boundary values (-2L, -L-ulp, -L, -1e-20, -0.0, 0, 5e-324, L/3, L/2, L-ulp, L, L+ulp, 2L, +-(1e6 L + 0.3 L), L/4, 5L/4, -3L/4) for L in {1, 0.75, 3, 2^-20} and mixed period vectors through ToroidalSpace::wrap_coord / canonicalize_point (D=1..3): result in the half-open box, congruent to the input, idempotent. All 3-point and a strided enumeration of 4-point (5 in thorough) D=2 sets over that alphabet through the toroidal builder: every result vertex in the box and congruent to its input (UUID, data kept), result passes the independent Level 1-3 + convex embedding reference and the exact Delaunay oracle, and every follow-up insert of an alphabet point is stored wrapped. Periodic (image-point) mode on 5..7-point subsets of a skewed 4x4 grid: when Ok, closed (every neighbour slot filled and reciprocated), Euler characteristic 0 (F = 2V), each input exactly once.",
         note="A first version judged the periodic quotient by vertex-set face identity, which is wrong for quotients on few vertices (false alarm, corrected: see DESIGN.md). Two genuine defects were repaired (fix: 19ee8cf, 6d9cd9e).",
         design_ref="DESIGN.md section 4 (C16)"),
+    "C14": dict(
+        category="model_checking",
+        technique="exhaustive enumeration of input permutations x construction options with result-digest equality, brute-force unique-Delaunay reference, and all operation-granularity schedules of 4 operations on two real threads",
+        text="For every input of the families (general-position and degenerate sets, D=2..5, both kernels): every ordering x dedup x retry option is built twice in process, again in a freshly spawned thread, and (retry disabled) with random instead of deterministic UUIDs - the cell sets (as coordinate tuples) must be identical; for Hilbert / Morton / Lexicographic every permutation of the caller's slice (all n! for n <= 6) must give the same result; for exactly general-position sets every Ok result of any strategy / kernel and the incremental build must equal the brute-force unique Delaunay triangulation. Schedules: all 24 orders x 16 thread assignments of four operations (two batch builds, flip + repair_advanced, incremental inserts) on two persistent worker threads handing over between operations, compared with the sequential results; plus a child process of the same binary rebuilding a fixed list of inputs.",
+        note="Schedules are explored at operation granularity only: the crate contains no lock, channel, condition or spawned thread; its only thread-affine state on a decision path is a recursion-guard thread-local, and the shared generation counter is a monotone fetch_add (DESIGN.md section 9). loom/shuttle have nothing to intercept.",
+        design_ref="DESIGN.md section 5 (C14), section 9"),
     "C15": dict(
         category="model_checking",
         technique="exhaustive enumeration of (valid state, query API, key) triples compared with brute-force face enumeration of the raw cells",
@@ -97,6 +103,18 @@ CLAIMED = {
         text="Hilbert: every cell of the 2^(bD) grid for D=1..5 and every bit depth b with bD <= 20 (24 in thorough) through hilbert_indices_prequantized: the indices are a bijection onto [0, 2^(bD)) and consecutive indices are grid cells that differ by 1 in exactly one coordinate; hilbert_index at cell centres equals quantize-then-index. Orderings / dedup: every vertex list up to the stated length over the full product of a per-axis alphabet with signed zeros, a near-duplicate pair (1, 1+1e-11), 4e9 (coordinate/tolerance ratio beyond i64) and 1e300, with deterministic UUIDs and data, through the four ordering strategies (output must be a permutation of the input as a multiset of (UUID, coordinate bits, data)), the two public dedup helpers and the five private batch dedup implementations via guarded wrappers (exact: exactly one representative per distinct coordinate tuple; epsilon in {1e-10, 0.5}: survivors are input vertices, none twice, pairwise not within the tolerance, every dropped vertex within the tolerance of a survivor - exact distance comparisons).",
         note="Epsilon claims exclude a 1% shell around the tolerance and lists containing 1e300 (distance overflow). Needs the verif-hooks wrappers for the private implementations.",
         design_ref="DESIGN.md section 4 (C17)"),
+    "C18": dict(
+        category="exploration",
+        technique="exhaustive enumeration of grid simplices x vertex orders x translations x dyadic scalings against exact big-integer Gram / Cramer values",
+        text="Every (D+1)-subset (strided where stated in the evidence) of per-dimension integer alphabets for D=1..5, exactly degenerate ones included, under vertex reorderings, translations by (7,-3,5,-2,4) and 1024 (D<=3) and scalings by 2^+-10, through simplex_volume, facet_measure (every facet), circumcenter, circumradius, inradius, radius_ratio and normalized_volume. Values of non-degenerate simplices must agree with the exact rational value (big-integer Gram determinants, Cramer circumcentre) within 1e-9 relative, be invariant under reorder / translation, and scale with the right power; an exactly degenerate simplex must give an error (a volume / inradius below 1e-6 of the natural scale counts as numerically zero).",
+        note="Nothing is asserted for simplices with an exact measure below 1e-9 (the crate's absolute degeneracy thresholds). Known finding: circumcenter / circumradius return finite garbage for exactly degenerate simplices in every dimension (zero-tolerance LU retry).",
+        design_ref="DESIGN.md section 4 (C18)"),
+    "C19": dict(
+        category="model_checking",
+        technique="explicit-state BFS over the full operation alphabet incl. adversarial coordinates and handles, every real call under catch_unwind with a work ceiling; release and debug-assertion profiles",
+        text="Breadth-first exploration from empty and constructed seeds (D=2..5, both kernels) where every transition is a real public API call under catch_unwind with a 60 s ceiling: inserts of the grid alphabet and of adversarial coordinates (+-1e300, 1e-300, 5e-324, f64::MAX/MIN, 1e154, -0.0, NaN, +-inf on one axis and on every axis) through both entry points, removal of every vertex / an out-of-range ordinal / an unknown vertex, duplicate UUIDs, every flip handle incl. stale, foreign and out-of-range ones and k=1 insertion at adversarial points, both repairs, all policy setters, clone / serde swaps, the mutable view; plus batch constructions and predicate / measure calls on tuples mixing ordinary and adversarial coordinates. Every call must return, none may panic, and no non-finite coordinate may ever be stored. Run in the release and the debug-assertion profile (debug_assert! panics count). The other explorers also run every call under catch_unwind and count panics in their outcome histograms.",
+        note="The ceiling detects non-termination and blow-ups, not asymptotic regressions. Two genuine defects were repaired (NaN/inf accepted during bootstrap; debug-build panic in Gram-determinant measures on overflowing input).",
+        design_ref="DESIGN.md section 5 (C19)"),
     "C12": dict(
         category="exploration",
         technique="exhaustive enumeration of grid tuples x vertex orders x scale variants against an exact (bigint) sign oracle",
